@@ -116,7 +116,8 @@ impl InstructionGenerator {
     }
 
     fn generate_stash_by_ref_args(&mut self, args: &Expressions) {
-        for (index, Positioned { element: arg, pos }) in args.iter().enumerate() {
+        // in reverse, so that they come off the stack in the order of the arguments
+        for (index, Positioned { element: arg, pos }) in args.iter().enumerate().rev() {
             if arg.is_by_ref() {
                 self.push(Instruction::EnqueueToReturnStack(index), *pos);
             }
